@@ -455,7 +455,50 @@ def apply_recipe(body, recipe, fired):
     return body
 
 
+def op_effects(repo, recipe):
+    """kind=opeffects: a C table, indexed by on-disk opcode number, of the syntactic stack effect of each opcode body.
+    For every STARTOP(name)..ENDOP block of `file`: pops = #pop() + #binop( + #sbinop(, pushes = #push( (those inside the
+    EXIT macro are not in the body text), inplace = 1 if the body uses `*sp` directly.  required = pops + inplace,
+    net = pushes - pops.  The index -> implementation name map is read from `table` (opcode_table.h: first do_/do2
+    argument of each row; NILOP rows have no implementation for that code kind)."""
+    text = strip_comments(open(os.path.join(repo, recipe['file']), encoding='utf-8', errors='replace').read())
+    stats = {}
+    for m in re.finditer(r'STARTOP\(\s*(\w+)\s*\)(.*?)\bENDOP\b', text, re.S):
+        body = m.group(2)
+        pops = len(re.findall(r'\bpop\(\)', body)) + len(re.findall(r'\bs?binop\(', body))
+        pushes = len(re.findall(r'\bpush\(', body))
+        inplace = 1 if re.search(r'\*sp\b', body) or re.search(r'\bs?binop\(', body) else 0
+        stats[m.group(1)] = (pops + inplace, pushes + inplace - pops - inplace, pops, pushes, inplace)
+    ttext = strip_comments(open(os.path.join(repo, recipe['table']), encoding='utf-8', errors='replace').read())
+    rows = re.findall(r'\{\{\s*([^{}]*?)\s*\}\s*,\s*(\w+)\s*,\s*"(\w+)"\s*\}', ttext)
+    if len(rows) < 60:
+        raise ExtractError('opcode_table.h: only %d rows recognised' % len(rows))
+    out = ['static const struct { int impl_action, impl_constraint; int required, net; } OP_EFFECT[] = {']
+    names = ['#ifdef OP_EFFECT_NAMES', 'static const char *const OP_IMPL_NAME[] = {']
+    for impls, psz, name in rows:
+        parts = [x.strip() for x in impls.split(',')]
+        if len(parts) == 1 and parts[0].startswith('do2('):
+            a = c = parts[0][4:-1]
+        else:
+            a = parts[0][4:-1] if parts[0].startswith('do_(') else None
+            c = parts[1][4:-1] if len(parts) > 1 and parts[1].startswith('do_(') else None
+        impl = a or c
+        if impl and impl not in stats:
+            raise ExtractError('opcode_table.h names implementation %s which has no STARTOP block' % impl)
+        req, net = (stats[impl][0], stats[impl][1]) if impl else (0, 0)
+        out.append('  { %d, %d, %d, %d },   /* %s: %s */' % (1 if a else 0, 1 if c else 0, req, net, name, impl))
+        names.append('  %s,' % ('"%s"' % impl if impl else '0'))
+    out.append('};')
+    names += ['};', '#endif']
+    out += names
+    info = {'file': recipe['file'], 'line': 1, 'kind': 'opeffects', 'what': 'syntactic stack effect of every STARTOP block joined with ' + recipe['table'],
+            'sha256': hashlib.sha256((text + ttext).encode()).hexdigest(), 'rules': [{'rule': 'opeffects-count', 'count': len(rows)}], 'source_header': ''}
+    return '\n'.join(out) + '\n', info
+
+
 def extract(repo, recipe):
+    if recipe.get('kind') == 'opeffects':
+        return op_effects(repo, recipe)
     path = os.path.join(repo, recipe['file'])
     try:
         text = open(path, encoding='utf-8', errors='replace').read()
